@@ -186,7 +186,10 @@ def broadcast_input(w, seed, spec):
     from furax._base.dense import DenseBlockDiagonalOperator as D
     fails = []
     for bshape, xshape, subs in [((2, 3, 5), (3,), 'ij...,j...->i...'), ((2, 3, 4, 5), (3, 5), 'ij...,j...->i...'),
-                                 ((2, 3, 5), (3, 1), 'ij...,j...->i...')]:
+                                 ((2, 3, 5), (3, 1), 'ij...,j...->i...'),
+                                 # named axes broadcast too: a batch letter of size 1 in the input against larger blocks
+                                 ((4, 3, 2), (1, 2), 'kij,kj->ki'), ((3, 4, 2), (1, 2), 'ikj,kj->ki'),
+                                 ((4, 3, 2), (1, 2), 'kij...,kj...->ki...')]:
         blocks = jnp.asarray(np.random.default_rng(seed).standard_normal(bshape), dtype=jnp.float32)
         op = D(blocks, S(xshape), subs)
         try:
